@@ -63,7 +63,7 @@ ASSUMPTIONS = [
     "reference language equivalence = product-automaton BFS (ref/dfa.py); fresh automaton = PinWords.make_dfa_for_perm of the tree under test",
     "shipped data are judged against ref/families.py (pinned by OEIS sequences) with the library's documented conventions for n <= 2",
 ]
-EXPECTED_PROBES = ["name_written_twice", "read_never_written", "torn_write", "crash_fired", "error_fired", "power_loss_dirty",
+EXPECTED_PROBES = ["guided_interrupt", "name_written_twice", "read_never_written", "torn_write", "crash_fired", "error_fired", "power_loss_dirty",
                    "load_after_restart", "load_absent_stores", "chdir", "realfs_run", "from_db_union", "concurrent_tasks", "interrupted_call", "real_make_dfa"]
 
 _STATE = {"prepared": False, "dfa_memo": {}, "orig": {}}
